@@ -99,7 +99,7 @@ def build_driver(chk, top, gen, libdir, dom, cpp, facts, allmap):
             open(f, "w").write(srcs[k])
             rc, out = common.sh(["g++"] + flags + ["-c", f, "-o", f[:-3] + ".o"], timeout=1800)
             if rc != 0:
-                raise common.BuildError("generated driver for %s does not compile:\n%s" % (dom, out[-3000:]))
+                raise common.BuildError("generated driver for %s does not compile:\n%s" % (dom, "\n".join(l for l in out.split("\n") if " error: " in l)[:6000] or out[-3000:]))
             return f[:-3] + ".o"
         with cf.ThreadPoolExecutor(N) as ex:
             os_ = list(ex.map(one, range(N)))
